@@ -388,13 +388,15 @@ def generate(rng, tier):
 
 REFINED = ["gcd_ops.rs dispatch (gcd / gcd_ext over inline/heap operands) and IBig sign handling", "gcd_large_dword",
            "gcd::gcd_ext_word / gcd_ext_dword (coefficient recovery |b| = q*|t| + |s|)", "gcd_ext_large post-processing (one product + exact division)",
-           "base ring/gcd.rs unchecked_gcd_ext (Euclid with cofactors)", "base ring/gcd.rs Gcd::gcd + unchecked_gcd (binary gcd with the one-division shortcut)", "lehmer_guess / lehmer_step cofactor matrix (determinant 1 => gcd preserved)",
+           "base ring/gcd.rs unchecked_gcd_ext (Euclid with cofactors)", "base ring/gcd.rs Gcd::gcd + unchecked_gcd (binary gcd with the one-division shortcut)",
+           "base ring/gcd.rs two-width unchecked_gcd_ext of u128 (full-width Euclid, half-width loop, recombined cofactors)", "lehmer_guess / lehmer_step cofactor matrix (determinant 1 => gcd preserved)",
            "nth_root Newton iteration (up then down) and its stopping rule", "sqrt_rem_large normalisation / de-normalisation of root and remainder",
            "log_dword / log_word_base / log_large correction loops for any admissible first guess", "UBig::remove (squaring tower up, then down)",
            "IBig::nth_root / sqrt / cbrt sign rules and panics",
            "no_std table estimator log2_fp8 / ceil_log2_fp8 over all u16, the u8 powering cases and the top-16-bit + shift lifting to wider integers (integer-level enclosure theorems by kernel evaluation)"]
-FRONTIER = ["gcd::gcd_in_place / gcd_ext_in_place (Lehmer loop over multi-word operands): specified by Nat.gcd / the Euclid loop",
-            "base ring/gcd.rs two-width u128 gcd_ext (Euclid in two word sizes, cofactors recombined): specified by the single-width loop",
+FRONTIER = ["gcd::gcd_in_place (Lehmer loop): mirrored at value level and proved SOUND (a returned value is the gcd for any guessed "
+            "cofactors); that no step goes negative / the loop returns is checked per call, not proved; the theorems about gcd() use Nat.gcd for it",
+            "gcd::gcd_ext_in_place (Lehmer loop with cofactor tracking): specified by the Euclid loop through its contract",
             "(a | b).trailing_zeros() is modelled as min(tz a, tz b)",
             "root::sqrt_rem (Zimmermann Karatsuba square root) and sqrt_rem_42: specified by the floor square root",
             "base ring/root.rs normalized_sqrt_rem / normalized_cbrt_rem (table + Newton): specified by the floor root, compared exhaustively for u8/u16",
@@ -432,8 +434,8 @@ LEVEL_NOTE = ("Trusted: Lean kernel; axioms propext/Classical.choice/Quot.sound;
               "estimator has integer-level enclosure theorems (all u16, u8 powering, wide-integer lifting) and is run through a harness "
               "built without the std feature; f32 rounding of the estimators is executed, not proved.")
 TECHNIQUE = "Lean 4 refinement/termination proofs (fuel + bound theorems) + differential correspondence + exact per-call enclosure checks"
-THEOREMS = ["Dashu.Props.C12." + t for t in ["gcd_prim_spec", "gcd_spec", "gcd_ext_prim_spec", "gcd_ext_bezout", "gcd_ext_bezout_driver", "lehmer_guess_det",
-            "lehmer_step_preserves_gcd", "sqrt_rem_spec", "nth_root_spec", "cbrt_rem_spec", "ibig_root_spec", "ilog_spec", "remove_spec",
+THEOREMS = ["Dashu.Props.C12." + t for t in ["gcd_prim_spec", "gcd_spec", "gcd_ext_prim_spec", "gcd_ext_prim_wide_spec", "gcd_ext_bezout", "gcd_ext_bezout_driver", "lehmer_guess_det",
+            "lehmer_step_preserves_gcd", "lehmer_gcd_sound", "sqrt_rem_spec", "nth_root_spec", "cbrt_rem_spec", "ibig_root_spec", "ilog_spec", "remove_spec",
             "log2_table_sound", "log2_u8_table_sound", "log2_wide_table_sound", "nth_root_zero_asIs_counterexample", "sqrt_rem_asIs_counterexample", "ibig_cbrt_asIs_counterexample",
             "ilog_zero_asIs_counterexample", "gcd_ext_post_precondition_counterexample"]]
 READY = True
